@@ -174,7 +174,72 @@ def _fix_protect_dotted_sources():
     pp._directly_asserted_variables = _directly_asserted_variables
 
 
+def _fix_minimiser_compares_covered_goals():
+    """postprocess._coverages additionally returns one 0/1 indicator per coverage goal (code object, predicate outcome, line) of
+    the executed test, so that the element-wise ``math.isclose`` of the iterative visitors only accepts a removal that leaves the
+    *set* of covered goals unchanged - not merely their number."""
+    import pynguin.ga.postprocess as pp
+    import pynguin.ga.testcasechromosome as tcc
+    import pynguin.ga.testsuitechromosome as tsc
+
+    def _coverages(fitness_functions, test_case):
+        suite = tsc.TestSuiteChromosome()
+        chrom = tcc.TestCaseChromosome(test_case=test_case)
+        suite.add_test_case_chromosome(chrom)
+        values = [ff_.compute_coverage(suite) for ff_ in fitness_functions]
+        result = chrom.get_last_execution_result()
+        sp = None
+        for ff_ in fitness_functions:
+            sp = ff_._executor.subject_properties  # noqa: SLF001
+            break
+        if result is None or sp is None:
+            return values
+        trace = result.execution_trace
+        values += [float(c in trace.executed_code_objects) for c in sp.existing_code_objects]
+        values += [float(trace.true_distances.get(p) == 0.0) for p in sp.existing_predicates]
+        values += [float(trace.false_distances.get(p) == 0.0) for p in sp.existing_predicates]
+        values += [float(line in trace.covered_line_ids) for line in sp.existing_lines]
+        return values
+
+    pp._coverages = _coverages
+
+
+def _fix_post_check_recomputes():
+    """TestCasePostProcessor marks the suite as changed after it modified its test cases, so that the coverage post-check of
+    generator._minimize recomputes instead of reading the cached pre-minimisation value."""
+    import pynguin.ga.postprocess as pp
+
+    orig = pp.TestCasePostProcessor.visit_test_suite_chromosome
+
+    def visit_test_suite_chromosome(self, chromosome):
+        orig(self, chromosome)
+        chromosome.changed = True
+
+    pp.TestCasePostProcessor.visit_test_suite_chromosome = visit_test_suite_chromosome
+
+
+def _fix_restore_path_emulated():
+    """Emulates the repaired restore path of generator._minimize (one get_coverage_for call per coverage function): a collection
+    of coverage functions passed to TestSuiteChromosome.get_coverage_for is evaluated function by function."""
+    import pynguin.ga.testsuitechromosome as tsc
+
+    from pynguin.utils.orderedset import OrderedSet
+
+    orig = tsc.TestSuiteChromosome.get_coverage_for
+
+    def get_coverage_for(self, coverage_function):
+        if isinstance(coverage_function, (OrderedSet, list, set, tuple)):
+            values = [orig(self, f) for f in coverage_function]
+            return values[0] if values else 0.0
+        return orig(self, coverage_function)
+
+    tsc.TestSuiteChromosome.get_coverage_for = get_coverage_for
+
+
 BREAKS = {
+    "PROPOSED_FIX_minimiser-compares-covered-goals": _fix_minimiser_compares_covered_goals,
+    "PROPOSED_FIX_post-check-recomputes": _fix_post_check_recomputes,
+    "PROPOSED_FIX_restore-path-emulated": _fix_restore_path_emulated,
     "PROPOSED_FIX_protect-dotted-sources": _fix_protect_dotted_sources,
     "PROPOSED_FIX_remove-unused-keeps-asserted": _fix_remove_unused_keeps_asserted,
     "PROPOSED_FIX_combined-protection": _fix_combined_protection,
